@@ -34,13 +34,16 @@ OBSERVING = ("poll", "get-offset", "topic", "stats", "cnext")
 
 def run_node_property(prop, tier, seed, replay, t0, *, module, gen, n_quick, n_thorough, spec_prefixes,
                       corr_kinds, assumptions, engine="sys", extra_tb=None, maxops_thorough=90,
-                      extra_coverage=None, pre_messages=None, pre_rc=0, pre_known_hits=None, http=True):
+                      extra_coverage=None, pre_messages=None, pre_rc=0, pre_known_hits=None, http=True, more_modules=None):
     if http:
         import gen_http
         gen = gen_http.wrap(gen)
     # 1-2. proofs
-    out = vlib.lean_build([module, "judge"])
+    out = vlib.lean_build([module, "judge"] + list(more_modules or []))
     names, examples, axioms, bad = vlib.audit(module)
+    for mm in (more_modules or []):
+        n2, e2, a2, b2 = vlib.audit(mm)
+        names, examples, axioms, bad = names + n2, examples + e2, sorted(set(axioms) | set(a2)), bad + b2
     obligations = len(names) + examples
     # 3. harness
     vlib.build_harness()
@@ -916,7 +919,7 @@ PROPS["C20"] = {"run": lambda p, tier, seed, replay, t0: run_node_property(
 
 import gen_conc
 PROPS["C12"] = {"run": lambda p, tier, seed, replay, t0: run_node_property(
-    p, tier, seed, replay, t0, module="Iggy.Props.C12", gen=gen_conc.gen, http=False,
+    p, tier, seed, replay, t0, module="Iggy.Props.C12", gen=gen_conc.gen, http=False, more_modules=["Iggy.Props.C12NoWait"],
     n_quick=48, n_thorough=1200, spec_prefixes=["stress-", "poll-", "obs-changed"],
     corr_kinds=ALL_POLL_KINDS | {"figures"},
     assumptions=ASSUME_NODE + [
